@@ -48,6 +48,10 @@ func (s *chunkSrc) Read(p []byte) (int, error) {
 	}
 	copy(p, s.data[s.pos:s.pos+n])
 	s.pos += n
+	// io.Reader allows the last data and io.EOF to come from the same call
+	if s.pos == len(s.data) && mcrt.Choose(2, "eof-with-last-data") == 1 {
+		return n, io.EOF
+	}
 	return n, nil
 }
 
